@@ -572,6 +572,47 @@ M.contract('exactly_lib.impls.types.matcher.impls.run_program.adv:Adv.primitive'
            raises_only=())
 
 
+# ------------------------------------------------------------------------------ a child that writes into an open file
+# A text that is written piecewise to ONE open file (a concatenation of sources: the stdin of a program) may have a
+# part that is the output of a program: that child writes through the file DESCRIPTOR, while what Python wrote before
+# may still sit in the buffer of the file OBJECT.  The parts arrive in the denoted order only if the object is flushed
+# before the child is started (C10: "the stdin text denoted by the stdin settings"; C14: the text of the file is the
+# text of as_str).
+
+class OutputFileI(Interface):
+    """the open text file a writer is asked to write to"""
+    methods = {'flush': Method(event='flush-output'), 'write': Method(event='output.write')}
+
+
+def flushed_before_the_child_writes(trace, output):
+    starts = [i for i, e in enumerate(trace) if e[0] == EXECUTE]
+    flushes = [i for i, e in enumerate(trace) if e[0] == 'flush-output' and e[1] is output]
+    return starts == [] or (flushes != [] and flushes[0] < starts[0])
+
+
+_FLUSH_CLAUSE = 'what was written to the file before is flushed before the child process writes through the descriptor'
+
+_FLUSH_REPLAY = '''
+import subprocess, tempfile, pathlib
+import exactly_lib
+runner = pathlib.Path(exactly_lib.__file__).parent.parent / 'default-main-program-runner.py'
+case = ('[setup]\\ndef program CAT = % cat\\n    -stdin "abc"\\ndef program CAT2 = @ CAT\\n'
+        '    -stdin -stdout-from % echo from-program\\n[act]\\n$ true\\n[assert]\\nstdout -from\\n  @ CAT2\\n'
+        '  equals <<EOF\\nabcfrom-program\\nEOF\\n')
+with tempfile.TemporaryDirectory() as d:
+    d = pathlib.Path(d)
+    (d / 's.case').write_text(case)
+    p = subprocess.run([sys.executable, '-W', 'ignore', str(runner), 's.case'], cwd=str(d), capture_output=True,
+                       text=True, env=dict(os.environ, PYTHONPATH=str(runner.parent)))
+    print('exit', p.returncode, (p.stdout + p.stderr)[:60].replace(chr(10), ' | '))
+    if p.returncode != 0 and "'from-program" in (p.stdout + p.stderr):
+        print('stdin = "abc" followed by the output of `echo from-program`: the program receives the parts in the '
+              'wrong order (the text written by Python was still in the buffer when the child wrote)')
+        sys.exit(1)
+sys.exit(0)
+'''
+
+
 # ------------------------------------------------------------------------------ programs as string transformers
 
 from exactly_lib.impls.types.string_transformer.impl.sources import transformed_by_program as tbp
@@ -586,10 +627,12 @@ P_TBP = 'exactly_lib.impls.types.string_transformer.impl.sources.transformed_by_
 TRANSFORMATION_WRITER = Inst(tbp._TransformationWriter, environment=APP_ENV, _ignore_exit_code=Bool,
                              transformer=A_COMMAND)
 
-M.contract(P_TBP + ':_TransformationWriter.write',
-           params=dict(self=TRANSFORMATION_WRITER, source=Iface(ContentsI), output=Any_),
+M.contract(P_TBP + ':_TransformationWriter.write', props=('C19', 'C10', 'C14'),
+           replay=lambda model, rf: _FLUSH_REPLAY if _FLUSH_CLAUSE in rf.get('obligation', '') else None,
+           params=dict(self=TRANSFORMATION_WRITER, source=Iface(ContentsI), output=Iface(OutputFileI)),
            ensures={'one process start, with the settings of the application environment the writer was built with':
-                    lambda self, trace: one_start(trace, self.transformer) and uses_app_env(trace, self.environment)},
+                    lambda self, trace: one_start(trace, self.transformer) and uses_app_env(trace, self.environment),
+                    _FLUSH_CLAUSE: lambda output, trace: flushed_before_the_child_writes(trace, output)},
            raises={HardErrorException: {'ensures': lambda self, trace: uses_app_env(trace, self.environment)}},
            raises_only=())
 
@@ -709,9 +752,12 @@ for _q, _shape in ((P_EXI + ':_WriterBase.write',
                     Union(_writer_shape(exit_ignored.StdoutWriter), _writer_shape(exit_ignored.StderrWriter))),
                    (P_EXR + ':StdoutWriter.write',
                     _writer_shape(exit_relevant.StdoutWriter, _stderr_msg_reader=Iface(TextReaderI)))):
-    M.contract(_q, params=dict(self=_shape, tmp_file_space=DIR_FILE_SPACE, output=Any_),
+    M.contract(_q, params=dict(self=_shape, tmp_file_space=DIR_FILE_SPACE, output=Iface(OutputFileI)),
+               props=('C19', 'C10', 'C14'),
+               replay=lambda model, rf: _FLUSH_REPLAY if _FLUSH_CLAUSE in rf.get('obligation', '') else None,
                ensures={'one process start, with the settings object (its timeout) the writer was built with':
-                        lambda self, trace: one_start(trace, self._command.command) and starts_with_held_settings(self, trace)},
+                        lambda self, trace: one_start(trace, self._command.command) and starts_with_held_settings(self, trace),
+                        _FLUSH_CLAUSE: lambda output, trace: flushed_before_the_child_writes(trace, output)},
                raises={HardErrorException: {'ensures': lambda self, trace: starts_with_held_settings(self, trace)}},
                raises_only=())
 
@@ -1353,6 +1399,18 @@ def _cleanup_and_removal_after_a_timeout():
 
 
 M.after_load = _cleanup_and_removal_after_a_timeout
+
+
+# ------------------------------------------------------------------------------ record classes that carry the timeout
+# The timeout (default, or last set) travels in tuple-backed records (ExecutionConfiguration,
+# ProcessExecutionSettings, instruction environments ...): each accessor must return the component that was built
+# from the constructor argument of its name.  (After the seeded change C19-s5: `timeout_in_seconds` returned
+# the memory buffer size, 8192 "seconds".)
+
+@M.check('record-accessors')
+def _record_accessors(ctx):
+    from contracts.common import record_accessor_obligations
+    record_accessor_obligations(ctx)
 
 
 # ------------------------------------------------------------------------------ completeness of the list of sites
